@@ -390,6 +390,30 @@ fn run_inner(cfg: &Config, worker: usize, program: &[u8], w: &World, plan: &Plan
                 let (a, b) = make_socketpair()?;
                 Ok((Some(a), SinkHandle::Stream(spawn_reader(b))))
             }
+            5 => {
+                // a terminal: pseudo-terminal in raw mode (no output post-processing)
+                let mut master: RawFd = -1;
+                let mut slave: RawFd = -1;
+                let r = unsafe { libc::openpty(&mut master, &mut slave, std::ptr::null_mut(), std::ptr::null(), std::ptr::null()) };
+                if r != 0 {
+                    return Err(std::io::Error::last_os_error());
+                }
+                unsafe {
+                    let mut t: libc::termios = std::mem::zeroed();
+                    libc::tcgetattr(slave, &mut t);
+                    libc::cfmakeraw(&mut t);
+                    libc::tcsetattr(slave, libc::TCSANOW, &t);
+                    libc::fcntl(master, libc::F_SETFD, libc::FD_CLOEXEC);
+                    libc::fcntl(slave, libc::F_SETFD, libc::FD_CLOEXEC);
+                    Ok((Some(OwnedFd::from_raw_fd(slave)), SinkHandle::Stream(spawn_reader(OwnedFd::from_raw_fd(master)))))
+                }
+            }
+            6 => {
+                // a pipe whose reader has gone away: every write fails with EPIPE
+                let (r, wr) = make_pipe()?;
+                drop(r);
+                Ok((Some(wr), SinkHandle::Nothing))
+            }
             _ => {
                 let p = io_dir.join(name);
                 Ok((Some(open_rw(&p)?), SinkHandle::File(p)))
